@@ -32,7 +32,6 @@ func KeyNeedsEscape(v any) bool {
 	return false
 }
 
-
 // DependencyMarshalPanic recognises the panic caused by go-openapi/spec v0.21.0
 // re-marshalling a schema whose properties/patternProperties key needs JSON
 // escaping during $ref expansion (known finding KF-spec-marshal-unescaped-key,
